@@ -1,6 +1,6 @@
 """C01 - presence is exactly the union of the spans that were added (removal-enabled graphs)."""
 import gen
-from props.base import PropBase, bigio_case, with_bigio, SpanTracker, norm_key, expand_bulk, tup
+from props.base import PropBase, bigio_case, with_bigio, SpanTracker, norm_key, expand_bulk, tup, shift_op
 
 
 def random_bulk(rnd, nodes):
@@ -62,8 +62,13 @@ class C01(PropBase):
                 pos = rnd.randint(0, len(hist))
                 hist.insert(pos, random_bulk(rnd, nodes + [9]))
                 classes.append('bulk')
+            if rnd.random() < 0.25:
+                # instants of other magnitudes: negative, 2^31, epochs, around the machine word (sys.maxsize = 2^63 - 1) and far beyond
+                d = rnd.choice([-rnd.randint(4, 15), 2 ** 31 - 3, 1700000000000, 2 ** 61 - 4, 2 ** 63 - 3, 2 ** 63 + 1000, 2 ** 64 + 1, 10 ** 30, -(2 ** 63) - 2])
+                hist = [tuple(shift_op(o, d)) for o in hist]
+                classes.append('negative_instants' if d < 0 else 'huge_instants')
             yield dict(directed=directed, removal=True, hist=hist, classes=classes,
-                       family=rnd.choice(['int', 'int', 'str', 'tuple', 'mixed']), functional=rnd.random() < 0.3)
+                       family=rnd.choice(['int', 'int', 'str', 'tuple', 'mixed', 'fset', 'obj', 'float']), functional=rnd.random() < 0.3)
 
     def program(self, case):
         hist = tup(case['hist'])
